@@ -537,7 +537,7 @@ fn v_less(a: &Row, b: &Row) -> bool {
     matches!((a.v, b.v), (Some(x), Some(y)) if x < y)
 }
 
-fn join_reference(a: &[Row], b: &[Row], jt: &str, m: impl Fn(&Row, &Row) -> bool) -> Vec<Cells> {
+pub fn join_reference(a: &[Row], b: &[Row], jt: &str, m: impl Fn(&Row, &Row) -> bool) -> Vec<Cells> {
     let mut out = vec![];
     let mut b_matched = vec![false; b.len()];
     for ra in a {
